@@ -2,7 +2,10 @@
 // MECHANICAL COPY of the line / column specification functions of units/line_index.rs (is_line_index, op_line,
 // op_col, line_post, lemma_line_sound) so that the contracts imported by `//@stub line_index get_line_from_offset`
 // / `get_char_position_from_offset` can be read in another unit.  Needs prelude/bytes.rs (`ints`).
+// Only change: is_line_index is OPAQUE here (its pairwise quantifier fires on every index term of a caller that
+// merely passes the line index on); lemma_line_sound reveals it.
 /// a line index: the byte offsets at which lines start — non-empty, starts with 0, strictly increasing
+#[verifier::opaque]
 pub open spec fn is_line_index(idx: Seq<int>) -> bool {
     &&& idx.len() > 0
     &&& idx[0] == 0
@@ -27,6 +30,7 @@ pub proof fn lemma_line_sound(idx: Seq<int>, o: int)
     ensures line_post(idx, o, op_line(idx, o)),
     decreases idx.len(),
 {
+    reveal(is_line_index);
     if idx.last() <= o {
     } else {
         if idx.len() == 1 { assert(idx.last() == idx[0]); }
